@@ -29,6 +29,7 @@ ASSUMPTIONS = [
     "a handle whose close() raised and stayed open at OS level is exempt from the exactly-one-release count",
     "when closing the stale handle fails, the exception may or may not propagate; what is demanded is that a fresh handle on the current inode was opened during that call and that no command was sent through the stale one",
 ]
+AUX_NAME = "event histories (sequence of op kinds incl. fault flavours, without ids)"
 REQUIRED_PROBES = ["raw_sense_execute", "cmd_after_replug", "close_fails", "replug_and_close_fails", "unplug_detected", "with_exit_exception", "detect_off_kept_handle", "iscsi_disconnect_once"]
 
 PATH = "/dev/sg3"
@@ -323,7 +324,9 @@ def execute(prog):
     for k, v in WORLD.probes.items():
         stats["probe." + k] = v
     nontrivial = WORLD.probes.get("cmd_after_replug", 0) + WORLD.probes.get("unplug_detected", 0) + WORLD.probes.get("detect_off_kept_handle", 0) > 0
-    return {"digest": WORLD.digest(), "violations": out, "nontrivial": nontrivial, "stats": stats,
+    import hashlib as _h
+    aux = _h.sha256(repr([prog["config"]["detect"], prog["config"]["mode"], prog["config"]["exit"]] + summary).encode()).hexdigest()
+    return {"digest": WORLD.digest(), "violations": out, "nontrivial": nontrivial, "stats": stats, "aux": aux,
             "summary": summary + ([left] if left else []), "events_tail": [{k: v for k, v in e.items() if k != "_judged"} for e in WORLD.events[-8:]]}
 
 
